@@ -306,7 +306,7 @@ func stackBurst(c *vlib.Cases, r *vlib.Rng, engine string, n int, prefix, epType
 			if rr.Chance(1, 10) {
 				method = "PUT"
 			}
-			rest := vlib.Pick(rr, []string{"/v1/chat/completions", "/v1/completions", "/api/generate", "/x/y%20z", "/v1/embeddings"})
+			rest := vlib.Pick(rr, []string{"/v1/chat/completions", "/v1/completions", "/api/generate", "/x/y%20z", "/v1/embeddings", "/olla/openai/v1/chat/completions", "/olla/proxy/v1/x"}) // the last two: the backend is itself an Olla
 			q := vlib.Pick(rr, []string{"", "a=1&b=%2F&c=x+y", "stream=true", "q=%7B%22k%22%3A1%7D&&z"})
 			target := prefix + strings.TrimPrefix(rest, "/")
 			if q != "" {
